@@ -44,7 +44,22 @@ import (
 
 // value alphabet (DESIGN C22): printable, space, UTF-8, '@', '*', '#', ',',
 // the 64-character upper bound of most X.520 attributes, leading space.
-var V = []string{"A", "a b", "é", "a@b.c", "*.x", "#1", "a,b", strings.Repeat("x", 64), " lead"}
+//
+// Indices 9.. (strengthening): every character of the X.680 PrintableString
+// punctuation set in one value, the characters Go's encoder deliberately keeps
+// out of PrintableString ('*', '&') and two that were never in it ('@', '_'),
+// each alone so that the value's string type depends on that character only,
+// a 128-byte value (long-form DER length), a 3-byte-per-rune and a 4-byte-per-rune
+// UTF-8 value, and the empty string (multi-valued fields only: an empty
+// single-valued field IS the default).
+var V = []string{"A", "a b", "é", "a@b.c", "*.x", "#1", "a,b", strings.Repeat("x", 64), " lead",
+	"&", "_", "'()+-/:=?", "*", "@", strings.Repeat("x", 128), "日本", "😀", ""}
+
+// invalidUTF8 is outside the statement's domain ("printable, UTF-8 and
+// special-character values"): the encoder is documented (Go encoding/asn1 and
+// the fork alike: "asn1: string not valid UTF-8") to refuse it. Accepted
+// behaviours: Marshal returns an error, or the value round-trips unchanged.
+const invalidUTF8 = "\xff"
 
 type fieldDef struct {
 	name    string
@@ -112,12 +127,14 @@ type alt struct {
 	Vals  []string // multi-valued: the list; single-valued: one element
 	Extra []xatv
 	Core  bool // member of the reduced alternative set (quick tier, 3 non-default fields)
+	Full  bool // member of the two-element set used by the item with ALL fields non-default
+	Bad   bool // holds invalidUTF8
 }
 
 func multiAlts() []alt {
 	var out []alt
 	for i, v := range V {
-		out = append(out, alt{Vals: []string{v}, Core: i == 0 || i == 2 || i == 4 || i == 8})
+		out = append(out, alt{Vals: []string{v}, Core: i == 0 || i == 2 || i == 4 || i == 8, Full: i == 2})
 	}
 	for i := range V { // two different values; half of them are permuted by the DER SET-OF sort
 		out = append(out, alt{Vals: []string{V[(i+1)%len(V)], V[i]}, Core: i == 0 || i == 2 || i == 7})
@@ -125,21 +142,38 @@ func multiAlts() []alt {
 	for i, v := range V { // duplicate value inside one RDN
 		out = append(out, alt{Vals: []string{v, v}, Core: i == 5 || i == 7})
 	}
+	// three values, prefix-related pairs ("a" is a prefix of "ab"): the DER SET OF
+	// sort compares the ENCODINGS (length octet first), i.e. a, b, ab — neither
+	// the given order nor the lexical order of the values.
+	out = append(out,
+		alt{Vals: []string{"b", "a", "ab"}, Core: true, Full: true},
+		alt{Vals: []string{"ab", "b", "a"}},
+		alt{Vals: []string{"a", "ab", "b"}},
+		alt{Vals: []string{"a", "ab", "a"}},
+		alt{Vals: []string{"é", "e", "éa"}}, // PrintableString and UTF8String elements in one SET
+		alt{Vals: []string{}},               // empty, non-nil slice: nothing is emitted
+		alt{Vals: []string{invalidUTF8}, Bad: true},
+		alt{Vals: []string{"a", invalidUTF8}, Bad: true},
+	)
 	return out
 }
 
 func singleAlts() []alt {
 	var out []alt
 	for i, v := range V {
-		out = append(out, alt{Vals: []string{v}, Core: i == 0 || i == 2 || i == 4 || i == 7 || i == 8})
+		if v == "" {
+			continue // the default of a single-valued field
+		}
+		out = append(out, alt{Vals: []string{v}, Core: i == 0 || i == 2 || i == 4 || i == 7 || i == 8, Full: i == 0 || i == 15})
 	}
+	out = append(out, alt{Vals: []string{invalidUTF8}, Bad: true})
 	return out
 }
 
 func extraAlts() []alt {
 	var out []alt
 	for i, v := range V {
-		out = append(out, alt{Extra: []xatv{{oidUnknown, v}}, Core: i == 0 || i == 2})
+		out = append(out, alt{Extra: []xatv{{oidUnknown, v}}, Core: i == 0 || i == 2, Full: i == 2})
 	}
 	for i, v := range V { // duplicates the multi-valued field Organization
 		out = append(out, alt{Extra: []xatv{{oidO, v}}, Core: i == 2 || i == 0})
@@ -157,11 +191,14 @@ func extraAlts() []alt {
 		alt{Extra: []xatv{{oidUnknown, "A"}, {oidO, "a b"}}, Core: true},
 		alt{Extra: []xatv{{oidO, "A"}, {oidUnknown, "é"}}},
 		alt{Extra: []xatv{{oidO, "b"}, {oidO, "a"}}},
-		alt{Extra: []xatv{{oidUnknown, int64(5)}}, Core: true}, // non-string value
+		alt{Extra: []xatv{{oidUnknown, int64(5)}}, Core: true, Full: true}, // non-string value
 		alt{Extra: []xatv{{oidUnknown, []byte{1, 2}}}},         // non-string value
 		alt{Extra: []xatv{{oidO, int64(7)}}},                   // non-string value under a standard OID
 		alt{Extra: []xatv{{"2.5.4.99", "A"}}, Core: false},     // unknown OID inside the X.520 arc
 		alt{Extra: []xatv{{"2.5.4.3.1", "A"}}, Core: false},    // 5-arc OID with a known 4-arc prefix
+		alt{Extra: []xatv{{oidCN, "b"}, {oidCN, "a"}, {oidCN, "ab"}}}, // three CommonNames: last one wins
+		alt{Extra: []xatv{{oidSerial, "b"}, {oidSerial, "a"}}},
+		alt{Extra: []xatv{{oidUnknown, invalidUTF8}}, Bad: true},
 	)
 	return out
 }
@@ -605,6 +642,250 @@ func walkName(der []byte) ([][]atom, error) {
 // (for content the decoder accepts): PrintableString, UTF8String, IA5String, NumericString.
 func plainStringTag(t byte) bool { return t == 0x13 || t == 0x0c || t == 0x16 || t == 0x12 }
 
+// ------------------------------------------------------------------ independent expectations (strengthening)
+
+// printableX680 is the PrintableString alphabet of X.680 §41.4 (Table 10):
+// A-Z a-z 0-9 space ' ( ) + , - . / : = ?   — typed from the standard. Go's
+// encoding/asn1.Marshal (and the fork, whose marshal.go says the same) documents:
+// a string without an explicit type is "a PrintableString if the character set
+// in the string is sufficiently limited, otherwise ... a UTF8String"; '*' and
+// '&', tolerated when PARSING, are rejected when choosing the type.
+func printableX680(s []byte) bool {
+	for _, b := range s {
+		switch {
+		case 'a' <= b && b <= 'z', 'A' <= b && b <= 'Z', '0' <= b && b <= '9':
+		case b == ' ', b == '\'', b == '(', b == ')', b == '+', b == ',', b == '-', b == '.', b == '/', b == ':', b == '=', b == '?':
+		default:
+			return false
+		}
+	}
+	return true
+}
+
+// bytesLessDER: X.690 §11.6 — the encodings of the elements of a SET OF are
+// compared as octet strings, the shorter one padded with trailing zero octets.
+func bytesLessOrEqualDER(a, b []byte) bool {
+	n := len(a)
+	if len(b) > n {
+		n = len(b)
+	}
+	for i := 0; i < n; i++ {
+		var x, y byte
+		if i < len(a) {
+			x = a[i]
+		}
+		if i < len(b) {
+			y = b[i]
+		}
+		if x != y {
+			return x < y
+		}
+	}
+	return true
+}
+
+func flatten(seq zpkix.RDNSequence) []zpkix.AttributeTypeAndValue {
+	var out []zpkix.AttributeTypeAndValue
+	for _, r := range seq {
+		out = append(out, r...)
+	}
+	return out
+}
+
+func strEq(a, b []string) bool {
+	if len(a) != len(b) {
+		return false
+	}
+	for i := range a {
+		if a[i] != b[i] {
+			return false
+		}
+	}
+	return true
+}
+
+// checkFilled: what FillFromRDNSequence documents ("Multi-entry RDNs are
+// flattened, all entries are added to the relevant n fields"; "Names contains
+// all parsed attributes"; "The ExtraNames field is not populated when parsing"):
+// n was a zero Name filled from a sequence whose deep copy (taken BEFORE the
+// fill) is snap. Every list is compared IN ORDER with the flattened sequence;
+// a single-valued field holds the LAST attribute of its type — the choice of
+// Go's crypto/x509/pkix.Name.FillFromRDNSequence, of which this type is a fork
+// (CommonNames / SerialNumbers hold all of them).
+func checkFilled(n *zpkix.Name, snap zpkix.RDNSequence) (what, detail string) {
+	flat := flatten(snap)
+	if len(n.Names) != len(flat) {
+		return "Names is not the flattened sequence", fmt.Sprintf("%d entries, sequence has %d attributes", len(n.Names), len(flat))
+	}
+	by := map[string][]string{}
+	for i, a := range flat {
+		if !n.Names[i].Type.Equal(a.Type) || !reflect.DeepEqual(n.Names[i].Value, a.Value) {
+			return "Names is not the flattened sequence", fmt.Sprintf("entry %d is %s=%s, sequence has %s=%s", i, oidStr(n.Names[i].Type), normVal(n.Names[i].Value), oidStr(a.Type), normVal(a.Value))
+		}
+		if s, ok := a.Value.(string); ok {
+			o := oidStr(a.Type)
+			by[o] = append(by[o], s)
+		}
+	}
+	if len(n.ExtraNames) != 0 {
+		return "ExtraNames populated by FillFromRDNSequence", fmt.Sprintf("%d entries", len(n.ExtraNames))
+	}
+	for _, f := range fields {
+		want := by[f.oid]
+		if f.single {
+			w := ""
+			if len(want) > 0 {
+				w = want[len(want)-1]
+			}
+			if g := *f.sv(n); g != w {
+				return "single-valued field " + f.name + " is not the last attribute of its type", fmt.Sprintf("got %q, sequence has %q in this order", g, want)
+			}
+			continue
+		}
+		if g := *f.mv(n); !strEq(g, want) {
+			return "field " + f.name + " is not the ordered list of the sequence's values", fmt.Sprintf("got %q, sequence has %q in this order", g, want)
+		}
+	}
+	if !strEq(n.CommonNames, by[oidCN]) {
+		return "field CommonNames is not the ordered list of the sequence's values", fmt.Sprintf("got %q, sequence has %q", n.CommonNames, by[oidCN])
+	}
+	if !strEq(n.SerialNumbers, by[oidSerial]) {
+		return "field SerialNumbers is not the ordered list of the sequence's values", fmt.Sprintf("got %q, sequence has %q", n.SerialNumbers, by[oidSerial])
+	}
+	return "", ""
+}
+
+// utf16BE / ucs4BE: the harness' own decoders for BMPString (X.680: UCS-2,
+// 2 octets per character, big endian) and UniversalString (UCS-4, 4 octets).
+// ok=false: not a well-formed string of that type (odd length, surrogate code
+// unit in UCS-2, code point beyond U+10FFFF) — then nothing is demanded.
+func utf16BE(b []byte) (string, bool) {
+	if len(b)%2 != 0 {
+		return "", false
+	}
+	var rs []rune
+	for i := 0; i < len(b); i += 2 {
+		u := rune(b[i])<<8 | rune(b[i+1])
+		if u >= 0xd800 && u <= 0xdfff {
+			return "", false
+		}
+		rs = append(rs, u)
+	}
+	return string(rs), true
+}
+
+func ucs4BE(b []byte) (string, bool) {
+	if len(b)%4 != 0 {
+		return "", false
+	}
+	var rs []rune
+	for i := 0; i < len(b); i += 4 {
+		u := uint32(b[i])<<24 | uint32(b[i+1])<<16 | uint32(b[i+2])<<8 | uint32(b[i+3])
+		if u > 0x10ffff || (u >= 0xd800 && u <= 0xdfff) {
+			return "", false
+		}
+		rs = append(rs, rune(u))
+	}
+	return string(rs), true
+}
+
+func latin1(b []byte) string {
+	rs := make([]rune, len(b))
+	for i, c := range b {
+		rs[i] = rune(c)
+	}
+	return string(rs)
+}
+
+// acceptedStrings: which Go strings a parser may produce for an attribute value
+// of a string type (judged=false: no independent expectation).
+//   - Printable/UTF8/IA5/Numeric: the content octets (X.690 §8.23).
+//   - BMPString: UTF-16BE decoding of the content; zcrypto documents "Strip
+//     terminator if present" (a trailing 0000), so both readings are accepted
+//     when the content ends in 0000.
+//   - UniversalString: UCS-4BE decoding (today zcrypto produces no string at all).
+//   - T61String / GeneralString: the statement is silent on the character set;
+//     the octets as they are (zcrypto: "8-bit clean string") and ISO 8859-1
+//     (Go's standard library) are both accepted.
+func acceptedStrings(tag byte, content []byte) (acc []string, judged bool) {
+	switch {
+	case plainStringTag(tag):
+		return []string{string(content)}, true
+	case tag == 0x1e:
+		s, ok := utf16BE(content)
+		if !ok {
+			return nil, false
+		}
+		acc = []string{s}
+		if l := len(content); l >= 2 && content[l-1] == 0 && content[l-2] == 0 {
+			t, _ := utf16BE(content[:l-2])
+			acc = append(acc, t)
+		}
+		return acc, true
+	case tag == 0x1c:
+		s, ok := ucs4BE(content)
+		if !ok {
+			return nil, false
+		}
+		return []string{s}, true
+	case tag == 0x14 || tag == 0x1b:
+		return []string{string(content), latin1(content)}, true
+	}
+	return nil, false
+}
+
+// parsedVsDER compares a parsed sequence with the harness' own structural
+// reading of the DER (atoms): same grouping, same OIDs, and every value that
+// the parser turned into a Go string is one of acceptedStrings.
+func parsedVsDER(seq zpkix.RDNSequence, atoms [][]atom, h ev.Hist) string {
+	if len(atoms) != len(seq) {
+		return "number of RDNs"
+	}
+	for i := range atoms {
+		if len(atoms[i]) != len(seq[i]) {
+			return "RDN size"
+		}
+		for j, a := range atoms[i] {
+			if oidStr(seq[i][j].Type) != a.oid {
+				return "attribute type"
+			}
+			s, isStr := seq[i][j].Value.(string)
+			acc, judged := acceptedStrings(a.tag, a.content)
+			if plainStringTag(a.tag) && !isStr {
+				return "value of a Printable/UTF8/IA5/NumericString"
+			}
+			if !isStr {
+				continue
+			}
+			if !judged {
+				if h != nil {
+					h[fmt.Sprintf("D2 string produced for tag 0x%02x without independent expectation (not judged)", a.tag)]++
+				}
+				continue
+			}
+			if !contains(acc, s) {
+				switch {
+				case plainStringTag(a.tag):
+					return "value of a Printable/UTF8/IA5/NumericString"
+				case a.tag == 0x1e:
+					return "value of a BMPString is not its UTF-16BE decoding"
+				case a.tag == 0x1c:
+					return "value of a UniversalString is not its UCS-4BE decoding"
+				}
+				return "value of a T61String/GeneralString is neither its octets nor their ISO 8859-1 reading"
+			}
+			if h != nil && !plainStringTag(a.tag) {
+				k := "octets"
+				if s != string(a.content) {
+					k = "decoded"
+				}
+				h[fmt.Sprintf("D2 tag 0x%02x value judged against the harness' own decoding (%s)", a.tag, k)]++
+			}
+		}
+	}
+	return ""
+}
+
 // ------------------------------------------------------------------ witnesses
 
 type witness struct {
@@ -709,7 +990,7 @@ func (d *d1) flush(c *ev.Ctx) {
 	d.ff, d.fo = nil, nil
 }
 
-func (d *d1) build(ch []choice) (n zpkix.Name, own, ext map[string][]string, extN map[string][]string, desc map[string]any, extras []xatv) {
+func (d *d1) build(ch []choice) (n zpkix.Name, own, ext map[string][]string, extN map[string][]string, desc map[string]any, extras []xatv, bad bool) {
 	own = map[string][]string{}  // oid -> string values of the Name's own field
 	ext = map[string][]string{}  // oid -> string values of ExtraNames entries
 	extN = map[string][]string{} // oid -> all ExtraNames values, normalised (incl. non-strings)
@@ -717,6 +998,7 @@ func (d *d1) build(ch []choice) (n zpkix.Name, own, ext map[string][]string, ext
 	for _, c := range ch {
 		e := d.ef[c.F]
 		a := e.alts[c.A]
+		bad = bad || a.Bad
 		if e.idx == extraField {
 			var l []string
 			for _, x := range a.Extra {
@@ -754,7 +1036,7 @@ func fieldOfOID(oid string) string {
 }
 
 func (d *d1) run(ch []choice, h ev.Hist, c *ev.Ctx, rep reporter) {
-	n, own, ext, extN, desc, extras := d.build(ch)
+	n, own, ext, extN, desc, extras, bad := d.build(ch)
 	w := witness{Dir: "D1", Choices: ch, Name: desc}
 	fail := func(sig, detail string) {
 		w.Detail = detail
@@ -765,7 +1047,7 @@ func (d *d1) run(ch []choice, h ev.Hist, c *ev.Ctx, rep reporter) {
 
 	var seq zpkix.RDNSequence
 	var der []byte
-	var back zpkix.RDNSequence
+	var back, backSnap zpkix.RDNSequence
 	var got zpkix.Name
 	var merr, uerr error
 	var rest []byte
@@ -779,6 +1061,7 @@ func (d *d1) run(ch []choice, h ev.Hist, c *ev.Ctx, rep reporter) {
 		if uerr != nil {
 			return
 		}
+		backSnap = copySeq(back) // FillFromRDNSequence keeps an alias of back (OriginalRDNS): compare with a deep copy taken before
 		got.FillFromRDNSequence(&back)
 	}); p {
 		fail("D1 panic@"+site+": "+ev.MsgClass(msg), msg)
@@ -786,8 +1069,16 @@ func (d *d1) run(ch []choice, h ev.Hist, c *ev.Ctx, rep reporter) {
 	}
 	c.Transitions.Add(4)
 	if merr != nil {
+		if bad {
+			// outside the domain: the documented refusal
+			h["D1 value that is not valid UTF-8: Marshal refuses ("+ev.MsgClass(merr.Error())+")"]++
+			return
+		}
 		fail("D1 asn1.Marshal(ToRDNSequence()) fails: "+ev.MsgClass(merr.Error()), merr.Error())
 		return
+	}
+	if bad {
+		h["D1 value that is not valid UTF-8: Marshal encodes it (round trip then demanded)"]++
 	}
 	w.DER = hex.EncodeToString(der)
 	if uerr != nil || len(rest) != 0 {
@@ -836,9 +1127,18 @@ func (d *d1) run(ch []choice, h ev.Hist, c *ev.Ctx, rep reporter) {
 			}
 		}
 	}
-	// sentence 2 on this parsed sequence
+	// the filled Name against the parsed sequence, in order (Names, CommonNames, SerialNumbers, every field)
+	if ok, why := sameSeq(back, backSnap); !ok {
+		fail("D1 FillFromRDNSequence modified the sequence it was given", why)
+		return
+	}
+	if what, detail := checkFilled(&got, backSnap); what != "" {
+		fail("D1 filled Name vs parsed sequence: "+what, detail)
+		return
+	}
+	// sentence 2 on this parsed sequence (compared with the deep copy taken before the fill)
 	c.Transitions.Add(1)
-	if ok, why := sameSeq(got.ToRDNSequence(), back); !ok {
+	if ok, why := sameSeq(got.ToRDNSequence(), backSnap); !ok {
 		fail("D1 ToRDNSequence of the filled Name is not the parsed sequence", why)
 		return
 	}
@@ -904,19 +1204,46 @@ func (d *d1) run(ch []choice, h ev.Hist, c *ev.Ctx, rep reporter) {
 			}
 		}
 	}
-	// string types chosen by the encoder (outcome classes only)
+	// string type chosen by the encoder: PrintableString iff every octet is in the
+	// X.680 PrintableString alphabet, else UTF8String; SET OF elements in DER order.
 	if atoms, err := walkName(der); err == nil {
+		nStr := 0
 		for _, r := range atoms {
-			for _, a := range r {
+			for k, a := range r {
+				if k > 0 && !bytesLessOrEqualDER(r[k-1].der(), a.der()) {
+					fail("D1 the elements of an RDN (SET OF) are not in DER order (X.690 §11.6)", fmt.Sprintf("%x before %x", r[k-1].der(), a.der()))
+					return
+				}
 				switch a.tag {
 				case 0x13:
+					nStr++
+					if !printableX680(a.content) {
+						fail("D1 string type: a value with a character outside the X.680 PrintableString alphabet is encoded as PrintableString", fmt.Sprintf("%q", a.content))
+						return
+					}
 					h["D1 value encoded as PrintableString"]++
 				case 0x0c:
+					nStr++
+					if printableX680(a.content) {
+						fail("D1 string type: a value of PrintableString characters only is encoded as UTF8String", fmt.Sprintf("%q", a.content))
+						return
+					}
 					h["D1 value encoded as UTF8String"]++
 				default:
 					h[fmt.Sprintf("D1 value encoded with tag 0x%02x", a.tag)]++
 				}
 			}
+		}
+		want := 0
+		for _, l := range own {
+			want += len(l)
+		}
+		for _, l := range ext {
+			want += len(l)
+		}
+		if nStr != want {
+			fail("D1 string type: a string value is encoded as neither PrintableString nor UTF8String", fmt.Sprintf("%d of %d string values carry tag 0x13/0x0c", nStr, want))
+			return
 		}
 	} else {
 		fail("D1 zcrypto's encoding is not SEQUENCE OF SET OF SEQUENCE{OID, value}", err.Error())
@@ -964,29 +1291,9 @@ func (d *d1) run(ch []choice, h ev.Hist, c *ev.Ctx, rep reporter) {
 
 // ------------------------------------------------------------------ direction 2
 
-func expectFields(atoms [][]atom, parsed zpkix.RDNSequence) (vals map[string][]string) {
-	vals = map[string][]string{}
-	for i, r := range atoms {
-		for j, a := range r {
-			if plainStringTag(a.tag) {
-				vals[a.oid] = append(vals[a.oid], string(a.content))
-				continue
-			}
-			// other tags (T61String, BMPString, non-strings): the statement does not say how
-			// they map to Go values; whatever the parser made a string counts as a value.
-			if i < len(parsed) && j < len(parsed[i]) {
-				if s, ok := parsed[i][j].Value.(string); ok {
-					vals[a.oid] = append(vals[a.oid], s)
-				}
-			}
-		}
-	}
-	return
-}
-
 // convertBack: fill a fresh Name from seq and convert back (sentence 2), and
-// compare the fields with the attribute values of the sequence.
-func convertBack(label string, seq zpkix.RDNSequence, atoms [][]atom, fail func(sig, detail string), c *ev.Ctx) bool {
+// compare every field of the filled Name, in order, with the sequence.
+func convertBack(label string, seq zpkix.RDNSequence, fail func(sig, detail string), c *ev.Ctx) bool {
 	snap := copySeq(seq)
 	var n zpkix.Name
 	var out zpkix.RDNSequence
@@ -1002,23 +1309,9 @@ func convertBack(label string, seq zpkix.RDNSequence, atoms [][]atom, fail func(
 		fail("D2 ("+label+") Name filled from a parsed sequence does not convert back to that sequence", why+": parsed "+showSeq(normZ(snap))+" converted back "+showSeq(normZ(out)))
 		return false
 	}
-	if atoms == nil {
-		return true
-	}
-	want := expectFields(atoms, snap)
-	for _, f := range fields {
-		if f.single {
-			g := *f.sv(&n)
-			if l := want[f.oid]; (len(l) == 0 && g != "") || (len(l) > 0 && !contains(l, g)) {
-				fail("D2 ("+label+") field "+f.name+" of the filled Name does not hold the sequence's values", fmt.Sprintf("got %q, sequence has %q", g, l))
-				return false
-			}
-			continue
-		}
-		if g := *f.mv(&n); !msEq(g, want[f.oid]) {
-			fail("D2 ("+label+") field "+f.name+" of the filled Name does not hold the sequence's values", fmt.Sprintf("got %q, sequence has %q", g, want[f.oid]))
-			return false
-		}
+	if what, detail := checkFilled(&n, snap); what != "" {
+		fail("D2 ("+label+") filled Name vs parsed sequence: "+what, detail)
+		return false
 	}
 	return true
 }
@@ -1048,31 +1341,14 @@ func runD2(der []byte, h ev.Hist, c *ev.Ctx, rep reporter) {
 	var nz [][]pair
 	if zok {
 		nz = normZ(zseq)
-		// the parsed sequence has the structure and OIDs of the DER; plain string types hold their content octets
+		// the parsed sequence has the structure and OIDs of the DER; string types hold what the harness' own decoding says
 		if atoms != nil {
-			bad := ""
-			if len(atoms) != len(zseq) {
-				bad = "number of RDNs"
-			}
-			for i := 0; bad == "" && i < len(atoms); i++ {
-				if len(atoms[i]) != len(zseq[i]) {
-					bad = "RDN size"
-					break
-				}
-				for j, a := range atoms[i] {
-					if oidStr(zseq[i][j].Type) != a.oid {
-						bad = "attribute type"
-					} else if plainStringTag(a.tag) && nz[i][j].val != "s:"+string(a.content) {
-						bad = "value of a Printable/UTF8/IA5/NumericString"
-					}
-				}
-			}
-			if bad != "" {
+			if bad := parsedVsDER(zseq, atoms, h); bad != "" {
 				fail("D2 asn1.Unmarshal: parsed sequence differs from the DER structure: "+bad, showSeq(nz))
 				return
 			}
 		}
-		if !convertBack("asn1.Unmarshal", zseq, atoms, fail, c) {
+		if !convertBack("asn1.Unmarshal", zseq, fail, c) {
 			return
 		}
 		c.Traces.Add(1)
@@ -1126,7 +1402,13 @@ func runD2(der []byte, h ev.Hist, c *ev.Ctx, rep reporter) {
 		} else {
 			h["D2 parseName accepts what asn1.Unmarshal rejects (not judged)"]++
 		}
-		if !convertBack("x509.parseName", *pseq, atoms, fail, c) {
+		if atoms != nil {
+			if bad := parsedVsDER(*pseq, atoms, nil); bad != "" {
+				fail("D2 x509.parseName: parsed sequence differs from the DER structure: "+bad, showSeq(np))
+				return
+			}
+		}
+		if !convertBack("x509.parseName", *pseq, fail, c) {
 			return
 		}
 		c.Traces.Add(1)
@@ -1175,6 +1457,16 @@ var d2Vals = []d2val{
 	{0x1c, []byte{0, 0, 0, 'u'}},             // UniversalString
 	{0x80, []byte("c")},                      // [0] primitive
 	{0x0c, []byte(strings.Repeat("x", 200))}, // long-form length
+	// strengthening: values with an independent expectation (harness UTF-16BE / UCS-4BE decoders)
+	{0x1e, []byte{0x65, 0xe5, 0x67, 0x2c}},             // BMPString "日本"
+	{0x1e, []byte{0, 'h', 0, 0}},                       // BMPString with a 0000 terminator (zcrypto strips it; both accepted)
+	{0x1e, []byte{0xd8, 0x3d, 0xde, 0x00}},             // surrogate pair: not UCS-2 (not judged)
+	{0x1e, nil},                                        // empty BMPString
+	{0x1c, []byte{0, 0, 0x65, 0xe5, 0, 1, 0xf6, 0x00}}, // UniversalString "日😀"
+	{0x14, []byte("plain")},                            // T61String, ASCII only
+	{0x0c, []byte("日本😀")},                              // UTF8String, 3- and 4-byte sequences
+	{0x13, []byte("'()+,-./:=?")},                      // all PrintableString punctuation
+	{0x13, []byte("a_b")},                              // '_' is not a PrintableString character
 }
 
 func at(oid string, tag byte, s string) atom { return atom{oid, tag, []byte(s)} }
@@ -1184,6 +1476,7 @@ var d2B = []atom{
 	at(oidCN, 0x13, "A"), at(oidCN, 0x0c, "é"), at(oidO, 0x13, "A"), at(oidO, 0x13, "B"),
 	at(oidL, 0x16, "a@b.c"), at(oidUnknown, 0x13, "A"), {oidUnknown, 0x02, []byte{5}}, {oidC, 0x05, nil},
 	at(oidOrgID, 0x13, "x"), at(oidEmail, 0x16, "a@b.c"), at(oidGiven, 0x0c, "é"), {oidSerial, 0x14, []byte{0xe9}},
+	{oidCN, 0x1e, []byte{0x65, 0xe5, 0x67, 0x2c}}, // strengthening: BMPString CommonName "日本" (several CNs of different string types: last wins)
 }
 
 // rdnForms: all ordered RDNs with at most maxLen atoms over the alphabet.
@@ -1231,36 +1524,60 @@ func main() {
 			return
 		}
 
-		c.Rule("D1: every pkix.Name with at most d non-default fields among the 15 attribute fields ToRDNSequence emits + ExtraNames (alternatives per field listed in coverage.d1_alternatives), full round trip through zcrypto's DER codec, fields compared as multisets, DER cross-decoded by the standard library; D2: every DER name of the listed shapes built by the harness' own DER writer, parsed by asn1.Unmarshal and x509.parseName, filled and converted back; a case is non-trivial when at least one attribute is present / a parser accepts it")
+		c.Rule("D1: every pkix.Name with at most d non-default fields among the 15 attribute fields ToRDNSequence emits + ExtraNames (alternatives per field listed in coverage.d1_alternatives: one, two, two equal and three values incl. the prefix-related a/ab/b, empty slice, empty string, 128-byte, 3- and 4-byte UTF-8 values, every PrintableString punctuation character, '*' '&' '@' '_'), plus all 16 fields non-default at once; full round trip through zcrypto's DER codec; fields compared as multisets with the Name and IN ORDER (Names, CommonNames, SerialNumbers, every list; single-valued = last) with a deep copy of the parsed sequence taken before the fill; DER cross-decoded by the standard library; string type of every value = PrintableString iff all octets are in the X.680 PrintableString alphabet else UTF8String; SET OF elements in X.690 order; a value that is not valid UTF-8 must be refused by Marshal or round-trip. D2: every DER name of the listed shapes built by the harness' own DER writer, parsed by asn1.Unmarshal and x509.parseName, each parse compared with the harness' own reading of the DER (BMPString by UTF-16BE, UniversalString by UCS-4BE, T61/GeneralString octets or ISO 8859-1), filled (same in-order comparison) and converted back; a case is non-trivial when at least one attribute is present / a parser accepts it")
 		c.Assume("attribute OIDs are the ones typed into this check from X.520, RFC 4519, PKCS#9, the EV guidelines and ETSI EN 319 412-1",
 			"Go's standard encoding/asn1 and crypto/x509/pkix decode PrintableString/UTF8String/INTEGER/OCTET STRING attribute values correctly",
-			"ExtraNames whose OID duplicates a set field: appended values and overriding values are both accepted (statement silent); a single-valued field may then show either value",
-			"values are non-empty valid UTF-8 strings; empty strings and strings that are not valid UTF-8 are outside the domain",
-			"CommonNames/SerialNumbers (filled but never emitted) are not compared")
+			"ExtraNames whose OID duplicates a set field: appended values and overriding values are both accepted (statement silent)",
+			"a single-valued field (CommonName, SerialNumber) filled from a sequence with several attributes of its type holds the LAST one, as Go's crypto/x509/pkix.Name.FillFromRDNSequence does; CommonNames/SerialNumbers hold all of them in order",
+			"strings that are not valid UTF-8 are outside the domain: Marshal refusing them (documented: 'asn1: string not valid UTF-8') is accepted, so is a faithful round trip",
+			"T61String/GeneralString: octets as they are or ISO 8859-1 are both accepted (statement silent); BMPString ending in 0000: with or without that terminator (zcrypto documents stripping it); BMPString with surrogate code units and ill-formed Universal strings are not judged")
 
 		// ---------------- direction 1
 		nf := len(d.ef)
 		maxD := 3
+		const (
+			selAll  = 0
+			selCore = 1
+			selFull = 2
+		)
 		type item struct {
 			fs   []int
-			core bool // only core alternatives
+			core int // which alternatives: selAll, selCore, selFull
 		}
 		var items []item
-		items = append(items, item{nil, false})
+		items = append(items, item{nil, selAll})
 		for a := 0; a < nf; a++ {
-			items = append(items, item{[]int{a}, false})
+			items = append(items, item{[]int{a}, selAll})
 			for b := a + 1; b < nf; b++ {
-				items = append(items, item{[]int{a, b}, false})
+				items = append(items, item{[]int{a, b}, selAll})
 				for e := b + 1; e < nf; e++ {
-					items = append(items, item{[]int{a, b, e}, c.Quick()})
+					items = append(items, item{[]int{a, b, e}, ev.Pick(c, selCore, selAll)})
 				}
 			}
 		}
-		altIdx := func(f int, core bool) []int {
+		// ALL 16 enumerated fields non-default at once, two alternatives each (2^16 names);
+		// split on the first two fields into 4 work items.
+		for a0 := 0; a0 < 4; a0++ {
+			all := make([]int, nf)
+			for i := range all {
+				all[i] = i
+			}
+			items = append(items, item{all, selFull + a0})
+		}
+		altIdx := func(f int, sel int) []int {
 			var out []int
 			for i, a := range d.ef[f].alts {
-				if !core || a.Core {
+				switch {
+				case sel == selAll, sel == selCore && a.Core, sel >= selFull && a.Full:
 					out = append(out, i)
+				}
+			}
+			if sel >= selFull {
+				if len(out) != 2 {
+					panic("field without exactly two Full alternatives")
+				}
+				if f < 2 { // the work item fixes the alternative of the first two fields
+					out = out[((sel-selFull)>>f)&1:][:1]
 				}
 			}
 			return out
@@ -1281,12 +1598,12 @@ func main() {
 			if e.idx != extraField {
 				name = fields[e.idx].name
 			}
-			altDesc[name] = map[string]int{"all": len(altIdx(f, false)), "core": len(altIdx(f, true))}
+			altDesc[name] = map[string]int{"all": len(altIdx(f, selAll)), "core": len(altIdx(f, selCore)), "all_fields_item": 2}
 		}
 		c.Set("d1_alternatives", altDesc)
 		c.Set("d1_value_alphabet", V)
 		c.Set("d1_names_planned", map[string]any{"total": total, "by_non_default_fields": perD, "three_fields_use_core_alternatives_only": c.Quick()})
-		c.Set("d1_max_non_default_fields", maxD)
+		c.Set("d1_max_non_default_fields", fmt.Sprintf("%d with every alternative (3: core alternatives in quick), plus all %d fields at once with two alternatives each", maxD, nf))
 
 		done := c.Parallel(len(items), func(wk, i int) {
 			it := items[i]
